@@ -22,5 +22,13 @@ impl<'a> CharacterString<'a> {
     open spec fn wf_dec(data: Seq<u8>, p: int, v: &Self, p2: int) -> bool {
         p < data.len() && p + 1 + data[p] <= data.len() && v.bytes() == data.subrange(p + 1, p + 1 + data[p]) && p2 == p + 1 + data[p]
     }
+    open spec fn wf_cdec(data: Seq<u8>, p: int, v: &Self, p2: int) -> bool { Self::wf_dec(data, p, v, p2) }
+    open spec fn wf_canon(&self) -> bool { true }
+    open spec fn wf_nocomp() -> bool { false }
+    proof fn lemma_rt(&self, pre: Seq<u8>) {
+        let d = pre + self.wf_enc();
+        assert(d[pre.len() as int] == self.bytes().len() as u8);
+        assert(d.subrange(pre.len() as int + 1, d.len() as int) =~= self.bytes());
+    }
 """)
     c.wrap(rel, CS_WF)
